@@ -9,7 +9,7 @@ ACQ = [
     (re.compile(r"^std::sync::(poison::)?(rwlock::)?RwLock::<T>::(read|try_read)$"), ("guard", "shared", "std")),
     (re.compile(r"^std::sync::(poison::)?(rwlock::)?RwLock::<T>::(write|try_write)$"), ("guard", "excl", "std")),
     (re.compile(r"^std::sync::(poison::)?(mutex::)?Mutex::<T>::(lock|try_lock)$"), ("guard", "excl", "std")),
-    (re.compile(r"^lock_api::rwlock::RwLock::<R, T>::(read|read_recursive|upgradable_read|try_read)$"), ("guard", "shared", "parking_lot")),
+    (re.compile(r"^(verif_selftest::)?lock_api::rwlock::RwLock::<R, T>::(read|read_recursive|upgradable_read|try_read)$"), ("guard", "shared", "parking_lot")),
     (re.compile(r"^lock_api::rwlock::RwLock::<R, T>::(write|try_write)$"), ("guard", "excl", "parking_lot")),
     (re.compile(r"^lock_api::mutex::Mutex::<R, T>::(lock|try_lock)$"), ("guard", "excl", "parking_lot")),
     (re.compile(r"^tokio::sync::(rwlock::)?RwLock::<T>::(read|read_owned)$"), ("aguard", "shared", "tokio")),
